@@ -289,6 +289,47 @@ def coq_eval_sx(prop: str, header: str, exprs: Sequence[str], timeout: int = 600
     return vals
 
 
+def coq_values(prop: str, header: str, exprs: Sequence[str], chunk: int = 300, timeout: int = 900,
+               tag: str = "vals") -> List[Any]:
+    """Bulk evaluation: each expr is a Gallina term of type sx; returns the parsed values (nested ints/lists),
+    one per expr, evaluated by vm_compute in parallel coqc processes of `chunk` expressions each."""
+    d = WORK / prop
+    d.mkdir(parents=True, exist_ok=True)
+    for old in d.glob(f"{tag}_*"):
+        old.unlink()
+    files = []
+    for k in range(0, len(exprs), chunk):
+        part = exprs[k:k + chunk]
+        body = [header, "Definition vals : list sx := ["]
+        body.append(";\n".join(f"  ({e})" for e in part))
+        body.append("].")
+        body.append("Eval vm_compute in (SL vals).")
+        p = d / f"{tag}_{k // chunk:04d}.v"
+        p.write_text("\n".join(body) + "\n")
+        files.append(p)
+    vals: List[Any] = []
+    with ThreadPoolExecutor(max_workers=min(16, max(1, len(files)))) as ex:
+        results = list(ex.map(_run_case_file, [(f, timeout) for f in files]))
+    for f, (rc, out) in zip(files, results):
+        if rc != 0:
+            raise CoqEvalError(f"{f}: coqc failed\n{out[-2000:]}")
+        m = re.search(r"=\s*(SL.*?)\s*:\s*sx\b", out, re.S)
+        if not m:
+            raise CoqEvalError(f"{f}: cannot parse output\n{out[-1000:]}")
+        vals += parse_sx(m.group(1))
+    if len(vals) != len(exprs):
+        raise CoqEvalError(f"{prop}: {len(vals)} values for {len(exprs)} expressions")
+    for f in files:
+        for ext in (".vo", ".glob", ".vok", ".vos"):
+            q = f.with_suffix(ext)
+            if q.exists():
+                q.unlink()
+        aux = f.parent / ("." + f.stem + ".aux")
+        if aux.exists():
+            aux.unlink()
+    return vals
+
+
 class CoqEvalError(Exception):
     pass
 
@@ -305,11 +346,21 @@ class Finding:
     commit: str = ""
 
 
+def _finding_lines() -> List[str]:
+    """KNOWN_FINDINGS.txt plus known_findings/<prop>.txt (same line format; committed; never written at run time)."""
+    lines: List[str] = []
+    if KNOWN.exists():
+        lines += KNOWN.read_text().splitlines()
+    d = VERIF / "known_findings"
+    if d.is_dir():
+        for f in sorted(d.glob("*.txt")):
+            lines += f.read_text().splitlines()
+    return lines
+
+
 def load_findings(prop: str) -> List[Finding]:
     out = []
-    if not KNOWN.exists():
-        return out
-    for line in KNOWN.read_text().splitlines():
+    for line in _finding_lines():
         line = line.strip()
         if not line or line.startswith("#"):
             continue
